@@ -51,7 +51,7 @@ def one(name):
 
 
 names = sorted(n for n in os.listdir(os.path.join(V, 'seeded'))
-               if n.startswith(prefix) and os.path.exists(os.path.join(V, 'seeded', n, 'patch.diff')))
+               if prefix in n and os.path.exists(os.path.join(V, 'seeded', n, 'patch.diff')))
 rows = []
 with cf.ThreadPoolExecutor(jobs) as ex:
     for row in ex.map(one, names):
